@@ -28,10 +28,12 @@ def finding_key(f, rec_panic=None):
 def select_templates(prop, tier):
     ts = catalog.QUICK if tier == 'quick' else catalog.QUICK + catalog.THOROUGH
     def is_rw(t): return any(op[0] in ('ematch', 'rewrite') for op in t.ops)
+    def is_ex(t): return any(op[0] == 'extract' for op in t.ops)
+    if prop == 'C06': return [t for t in ts if is_ex(t)]
     if prop == 'C14': return [t for t in ts if t.analysis != '()']
     if prop in ('C04', 'C05', 'C15'): return [t for t in ts if t.analysis == '()' and is_rw(t)]
     if prop == 'C08': return [t for t in ts if t.analysis == '()']          # consistency also after matching / rewriting steps
-    return [t for t in ts if t.analysis == '()' and not is_rw(t)]
+    return [t for t in ts if t.analysis == '()' and not is_rw(t) and not is_ex(t)]
 
 def hash_orders(tier): return ('ins', 'rev') if tier == 'quick' else ('ins', 'rev', 'rot')
 
@@ -72,7 +74,7 @@ def run(prop, tier, seed=0, extra=None):
                    'history': tmpl.describe(), 'key': key}
         path = common.write_replay(prop, key, payload)
         violations[key] = (key, path, text)
-    if prop in ('C01', 'C02', 'C04', 'C05', 'C08', 'C09', 'C13', 'C14', 'C15', 'C10'):   # kinds of judge.KIND_PROP
+    if prop in ('C01', 'C02', 'C04', 'C05', 'C06', 'C08', 'C09', 'C13', 'C14', 'C15', 'C10'):   # kinds of judge.KIND_PROP
         for f in findings:
             if f['prop'] != prop and not (prop == 'C10' and f['kind'] in ('sym_extra', 'sym_missing', 'unsound_eq', 'missing_eq') and f['template'].startswith(('TH', 'TW', 'TORB', 'T4', 'B4', 'B5'))): continue
             rec = rec_index.get((f['template'], f['hash_order'], f['path'], tuple(f['pattern'])))
